@@ -1706,8 +1706,11 @@ class Pool:
             if self._putlock:
                 self._putlock.clear()
             self._worker_handler.close()
-            self._taskqueue.put(None)
+            # the supervisor may be in the middle of adding a worker: wait
+            # for it before the task handler is told to send one sentinel
+            # per worker, or the latecomer gets none and join() never ends.
             stop_if_not_current(self._worker_handler)
+            self._taskqueue.put(None)
 
     def terminate(self):
         debug('terminating pool')
@@ -1766,6 +1769,9 @@ class Pool:
         debug('finalizing pool')
 
         worker_handler.terminate()
+        # (it may be in the middle of adding a worker, which would miss
+        # the termination signal sent to the workers below)
+        stop_if_not_current(worker_handler)
 
         task_handler.terminate()
         taskqueue.put(None)                 # sentinel
